@@ -446,6 +446,37 @@ func schemaSmallScopeChunks() [][]string {
 			out = append(out, with(strings.Replace(p, "%s", t, 1)))
 		}
 	}
+	// the same name twice: every kind of member, written directly, added by an extension, and in two extensions
+	dup := [][3]string{
+		{"type X { a: Int %s }", "a: Int", "extend type X { %s }"}, {"interface X { a: Int %s }", "a: Int", "extend interface X { %s }"},
+		{"input X { a: Int %s }", "a: Int", "extend input X { %s }"}, {"enum X { A %s }", "A", "extend enum X { %s }"},
+		{"type X { f(a: Int %s): Int }", "a: Int", ""}, {"directive @x(a: Int %s) on FIELD", "a: Int", ""}, {"union X = O %s", "| O", "extend union X = O"},
+		{"input X { a: Int %s }", "a: String", "extend input X { %s }"}, {"type X { a: Int %s }", "a(z: Int): Int", "extend type X { %s }"},
+		{"type X implements I %s { a: Int }", "& I", "extend type X implements I"}, {"directive @x on FIELD %s", "| FIELD", ""},
+		{"schema { query: Query %s }", "query: Query", "extend schema { %s }"}, {"type X @r %s { a: Int }", "@r", "extend type X @r"},
+	}
+	for _, dd := range dup {
+		out = append(out, with("directive @r on OBJECT", strings.Replace(dd[0], "%s", "", 1)), with("directive @r on OBJECT", strings.Replace(dd[0], "%s", dd[1], 1)))
+		if dd[2] != "" {
+			e := strings.Replace(dd[2], "%s", dd[1], 1)
+			out = append(out, with("directive @r on OBJECT", strings.Replace(dd[0], "%s", "", 1), e), with("directive @r on OBJECT", strings.Replace(dd[0], "%s", "", 1), e, e),
+				with("directive @r on OBJECT", e, strings.Replace(dd[0], "%s", "", 1)), with("directive @r on OBJECT", e, e))
+		}
+	}
+	for _, t := range []string{"scalar S", "type O { b: Int }", "enum O { B }", "directive @x on FIELD", "directive @skip(if: Boolean!) on FIELD", "scalar Int", "type __Type { a: Int }", "type Query { z: Int }"} {
+		out = append(out, with(t), with(t, t))
+	}
+	// a type that is not an object under the default name of a root, without and with a schema block
+	for _, root := range []string{"Query", "Mutation", "Subscription"} {
+		for _, decl := range []string{"input %s { a: Int }", "interface %s { a: Int }", "enum %s { A }", "scalar %s", "union %s = O", "type %s { a: Int }"} {
+			dtxt := strings.Replace(decl, "%s", root, 1)
+			if root == "Query" {
+				out = append(out, []string{"type O { a: Int }", dtxt}, []string{"type O { a: Int }", dtxt, "schema { query: Query }"}, []string{"type O { a: Int }", dtxt, "schema { query: O }"})
+			} else {
+				out = append(out, with(dtxt), with(dtxt, "schema { query: Query }"), with(dtxt, "extend schema { "+strings.ToLower(root)+": "+root+" }"))
+			}
+		}
+	}
 	allLoc := "SCHEMA | SCALAR | OBJECT | FIELD_DEFINITION | ARGUMENT_DEFINITION | INTERFACE | UNION | ENUM | ENUM_VALUE | INPUT_OBJECT | INPUT_FIELD_DEFINITION"
 	defs := []string{
 		"directive @x on " + allLoc, "directive @x(a: Int!) on " + allLoc, "directive @x(a: Int) on " + allLoc, "directive @x(a: Int! = 1) on " + allLoc,
